@@ -185,6 +185,27 @@ class Route(object):
         return r
 
 
+class OmitDefaults(Route):
+    """Deterministic route: DEFAULT components equal to their default are left absent, everything else as in the plain
+    construction (C12: a value as a user would build it, without spelling out defaults)."""
+
+    def __init__(self):
+        Route.__init__(self, None)
+
+    def order(self, items):
+        return list(items)
+
+    def omit_default(self):
+        self.used.add('default-omitted')
+        return True
+
+    def by_position(self):
+        return False
+
+    def list_route(self):
+        return 'append'
+
+
 def pytree(T, v, native_style=False):
     """Plain-Python tree equivalent to v (C17): dict / list / scalars as the native codec uses them.
     Absent OPTIONALs are simply missing."""
